@@ -90,6 +90,13 @@ fn relax_sequences(before: &mut Value, after: &mut Value) -> Result<(), String> 
     }
     before["sequences"] = Value::Null;
     after["sequences"] = Value::Null;
+    // the sequence table inside the snapshot records moves with the counters
+    if let Some(o) = before.get_mut("snapshot_records").and_then(|v| v.as_object_mut()) {
+        o.insert(rnacos::common::constant::SEQUENCE_TREE_NAME.as_str().to_string(), Value::Null);
+    }
+    if let Some(o) = after.get_mut("snapshot_records").and_then(|v| v.as_object_mut()) {
+        o.insert(rnacos::common::constant::SEQUENCE_TREE_NAME.as_str().to_string(), Value::Null);
+    }
     Ok(())
 }
 
